@@ -169,19 +169,34 @@ pub fn replay(a: &Args) -> i32 {
     for i in 0..n {
         let mut headers = HashMap::new();
         for _ in 0..rng.gen_range(0..4) {
-            headers.insert(rand_str(&mut rng, 6), rand_str(&mut rng, 10));
+            let (kl, vl) = if i % 7 == 0 { (80, 150) } else { (6, 10) };
+            headers.insert(rand_str(&mut rng, kl), rand_str(&mut rng, vl));
         }
         let body: Vec<u8> = (0..rng.gen_range(0..40)).map(|_| rng.gen()).collect();
         let mut ents: Vec<(Vec<u8>, Vec<u8>)> = headers.iter().map(|(k, v)| (k.as_bytes().to_vec(), v.as_bytes().to_vec())).collect();
         ents.sort();
         let ents_json: Vec<Value> = ents.iter().map(|(k, v)| json!([k, v])).collect();
         if i % 2 == 0 {
-            let route = rand_str(&mut rng, 12);
+            // mostly short routes; some long ones, so that every byte offset up to a few hundred
+            // falls inside a multi-byte character in some message
+            let route = if i % 10 == 0 { rand_str(&mut rng, 200) } else { rand_str(&mut rng, 12) };
             let b = enc_req(&cfg, &route, &headers, &body, true).unwrap();
+            match std::panic::catch_unwind(std::panic::AssertUnwindSafe(|| block(anemo::verif::direct::read_request(&cfg, &b[..])))) {
+                Ok(Ok(r)) if r.route() == route && r.headers() == &headers && r.body()[..] == body[..] => {}
+                Ok(Ok(_)) => mismatches.push(json!({"what": "random request did not round trip through the real decoder", "route": route})),
+                Ok(Err(e)) => mismatches.push(json!({"what": format!("random request encoded by the real code was rejected by the real decoder: {e}"), "route": route})),
+                Err(_) => mismatches.push(json!({"what": "the real request decoder panicked on a valid message", "route": route, "route_bytes": route.len()})),
+            }
             lines.push(json!({"ev": "wire", "kind": "req", "bytes": b, "route": route.as_bytes(), "entries": ents_json, "body": body}));
         } else {
             let status = [200u16, 400, 404, 408, 429, 500, 505, 520][rng.gen_range(0..8)];
             let b = enc_resp(&cfg, status, &headers, &body, true).unwrap();
+            match std::panic::catch_unwind(std::panic::AssertUnwindSafe(|| block(anemo::verif::direct::read_response(&cfg, &b[..])))) {
+                Ok(Ok(r)) if r.status().to_u16() == status && r.headers() == &headers && r.body()[..] == body[..] => {}
+                Ok(Ok(_)) => mismatches.push(json!({"what": "random response did not round trip through the real decoder"})),
+                Ok(Err(e)) => mismatches.push(json!({"what": format!("random response encoded by the real code was rejected by the real decoder: {e}")})),
+                Err(_) => mismatches.push(json!({"what": "the real response decoder panicked on a valid message"})),
+            }
             lines.push(json!({"ev": "wire", "kind": "resp", "bytes": b, "status": status, "entries": ents_json, "body": body}));
         }
         evaluations += 1;
